@@ -239,6 +239,8 @@ def jobs(tier, seed):
     # routing, int64 (64-bit column broadcast), every kind
     for op in ("subtract", "less", "bitwise_and", "maximum") if q else ("subtract", "less", "bitwise_and", "maximum", "add", "equal", "bitwise_xor", "minimum", "floor_divide"):
         for kind in ("rr", "rs", "sr", "rc", "cr"):
+            if op == "floor_divide" and kind != "rs":
+                continue          # a symbolic divisor (symbolic / symbolic) is outside reach; array // python scalar (0..100, enumerated by forking) stays
             out.append(dict(base, op=op, kind=kind, dt1="int64", dt2="int64", sk="pyint" if kind in ("rs", "sr") else None))
     out.append(dict(base, op="subtract", kind="rr_bad", dt1="int64", dt2="int64"))
     out.append(dict(base, op="subtract", kind="rr_bad", dt1="int64", dt2="int64", via_astype=True))
